@@ -34,7 +34,7 @@ ASSUMPTIONS = [
     "x86-64 ELF only",
 ]
 BOUNDS = {"quick": {"set_size": 2}, "thorough": {"set_size": 3}}
-CAP_S = {"quick": 150, "thorough": 2400}
+CAP_S = {"quick": 400, "thorough": 2400}
 
 SP = [".cfi_startproc", [], None]
 EP = [".cfi_endproc", [], None]
